@@ -264,6 +264,10 @@ def fam_oserr(tier: str) -> list[dict]:
                         [[{"k": "anserr", "d": 1, "err": e}], [{"k": "ans", "d": 1}]],
                         [[{"k": "anserr", "d": 1, "d2": 3, "err": e}], [{"k": "ans", "d": 1}]],
                         [[{"k": "pclose", "d": 1, "err": e}], [{"k": "ans", "d": 1}]],
+                        # the send itself fails: error_received() runs before sendto() returns (datagram sockets)
+                        [[{"k": "serr", "d": 1, "err": e}], [{"k": "ans", "d": 1}]],
+                        [[{"k": "drop"}, {"k": "serr", "d": 1, "err": e}], [{"k": "ans", "d": 1}]],
+                        [[{"k": "ans", "d": 1}], [{"k": "serr", "d": 1, "err": e}, {"k": "serr", "d": 1, "err": e}]],
                     ]
                     for v in variants:
                         for g in (0, 4):
